@@ -242,6 +242,37 @@ MUTATORS = [
 ]
 
 
+SAME_SIZE_MUTATORS = [m_retarget, m_retarget, m_backward_branch, m_shared_case_body, m_cross_routine_jump]
+
+
+def sibling(doc: dict, rng: random.Random, tries: int = 12) -> dict | None:
+    """A routine set with the same ops, offsets and sizes as `doc` but other jump targets: graphs of equal
+    vertex / edge counts and different shape (what a memo keyed too weakly would confuse)."""
+    base = lift(doc)
+    for _ in range(tries):
+        rs = copy.deepcopy(base)
+        log = [rng.choice(SAME_SIZE_MUTATORS)(rs, rng) for _ in range(rng.choice([1, 1, 2]))]
+        if all(x == "noop" for x in log):
+            continue
+        out = layout(rs, None, gaps=False, start=min((o["off"] for r in doc["routines"] for o in r["ops"]), default=0))
+        # keep the original offsets (same numbering as doc)
+        offs = [o["off"] for r in doc["routines"] for o in r["ops"]]
+        new_offs = [o["off"] for r in out["routines"] for o in r["ops"]]
+        if len(offs) != len(new_offs):
+            continue
+        remap = dict(zip(new_offs, offs))
+        for r in out["routines"]:
+            for o in r["ops"]:
+                ji = JUMP_PARAM_INDEX.get(o["op"])
+                if ji is not None and ji < len(o["params"]) and isinstance(o["params"][ji], int):
+                    o["params"][ji] = remap.get(o["params"][ji], o["params"][ji])
+                o["off"] = remap[o["off"]]
+        ok, _ = well_formed(out)
+        if ok and out != doc:
+            return out
+    return None
+
+
 def mutate(doc: dict, rng: random.Random, n_mut: int | None = None, tries: int = 12) -> tuple[dict, list[str]]:
     """Apply 0..n mutators; returns a well-formed routine set (falls back to fewer mutations)."""
     base = lift(doc)
